@@ -20,7 +20,7 @@ from ..core import outcome
 
 RULE = ("one case = (program of table operations = TLC state of MC_C19, table type) replayed on a real bnpdataclass; non-trivial = the "
         "program combines two of {selection, concatenation, sort, replace, add-field} before its last step; distinct by (program, type)")
-ALL_OPS = ["index", "concat", "replace", "addfield", "addexisting", "sort", "rows", "dict", "pandas", "iter", "len", "row", "construct"]
+ALL_OPS = ["index", "concat", "replace", "addfield", "addexisting", "sort", "rows", "dict", "pandas", "iter", "len", "row", "narrow", "construct"]
 _TYPES = {}
 
 
@@ -182,6 +182,7 @@ def _expected_rows(tname, table, names):
 
 def check_vector(v):
     import bionumpy as bnp
+    from bionumpy import datatypes as dt
     from bionumpy.bnpdataclass import replace
     prog, obs, pool_exp = v["prog"], v["obs"], v["pool"]
     types = _types()
@@ -192,7 +193,12 @@ def check_vector(v):
     structural = sum(1 for p in prog[1:] if p["op"] in ("index", "concat", "sort", "replace", "addfield", "addexisting"))
     for tname in dict.fromkeys(chosen):
         cls, sortc, repc, rows, fresh = types[tname]
-        pool = [_from_file(rows) if tname == "Bed6File" else cls.from_entry_tuples(rows)]
+        made = outcome(lambda: _from_file(rows) if tname == "Bed6File" else cls.from_entry_tuples(rows))
+        if made[0] == "err":
+            bad.append({"what": "building the start table of type %s from its rows raised" % tname, "tags": {"type": tname, "op": "create", "ops": "create", "kind": "raises"},
+                        "vector": v, "case": {"prog": prog, "type": tname}, "expected": str(rows)[:200], "observed": made[1]})
+            continue
+        pool = [made[1]]
         last = ("ok", None)
         failed = None
         for step, op in enumerate(prog[1:]):
@@ -241,6 +247,13 @@ def check_vector(v):
                     return [tuple(_freeze(_plain(getattr(e, nm))) for nm in fields) for e in t.toiter()]
                 elif name == "len":
                     return len(t)
+                elif name == "narrow":
+                    from bionumpy.bnpdataclass.bnpdataclass import narrow_type
+                    plain = type(t.get_data_object()) if hasattr(t, "get_data_object") else type(t)
+                    for f in dataclasses.fields(plain):
+                        # every text column in turn narrowed to a DNA alphabet, every other column to a float: the derived types are dropped
+                        narrow_type(plain, f.name, bnp.DNAEncoding if f.type in (str, dt.SequenceID) else float)
+                    return _project(plain.from_entry_tuples([dataclasses.astuple(e) for e in t.tolist()]))[0]
                 elif name == "row":
                     fields = [f.name for f in dataclasses.fields(t)]
                     try:
@@ -293,7 +306,7 @@ def check_vector(v):
                     bad.append({"what": "construction did not convert the columns to the declared types (different values)",
                                 "tags": dict(tags, kind="construct", form=prog[-1]["form"]), "vector": v, "case": case,
                                 "expected": str(want)[:300], "observed": str(got)[:300]})
-        if prog[-1]["op"] in ("rows", "dict", "pandas", "iter", "len", "row"):
+        if prog[-1]["op"] in ("rows", "dict", "pandas", "iter", "len", "row", "narrow"):
             tgt = pool_exp[prog[-1]["t"] - 1]
             names = [f.name for f in dataclasses.fields(pool[prog[-1]["t"] - 1])]
             want = _expected_rows(tname, tgt, names)
@@ -391,7 +404,7 @@ def run(ctx):
     quick = ctx.tier == "quick"
     consts = {"NRows": 3, "Cols": ["key", "a", "b"], "SortCol": "key", "RepCol": "a", "MaxPool": 3, "MaxDepth": 4 if quick else 5, "Ops": ALL_OPS}
     res = ctx.tlc("MC_C19", spec="Spec", constants=consts, invariants=["AllColumnsEqualLen", "RowsIntact", "Emit"], properties=["OperandsUnchanged"], coverage=True)
-    ctx.require_actions(res, "MC_C19", ["Index_", "Concat_", "Replace_", "AddField_", "Sort_", "Rows_", "Dict_", "Pandas_", "Iter_", "Row_", "Construct_"])
+    ctx.require_actions(res, "MC_C19", ["Index_", "Concat_", "Replace_", "AddField_", "Sort_", "Rows_", "Dict_", "Pandas_", "Iter_", "Row_", "Narrow_", "Construct_"])
     vectors = res.vectors
     ctx.sample(vectors[60])
     ctx.absorb(core.pmap(check_vector, vectors, chunk=25))
